@@ -3,12 +3,18 @@
 A case is a JSON document
 
     {"backbone_type", "backbone_config" (the dict handed to OmegaConf), "model_type",
-     "head_configs", "batch", "calls": [[H, W], ...], "torch_seed"}
+     "head_configs", "batch", "calls": [[H, W], ...], "torch_seed",
+     "ranges": [value-range class of frame 0, frame 1, ...]   (optional; default all "unit")}
 
 `evaluate` builds `sleap_nn.architectures.model.Model` from it (weights from
 `torch.manual_seed(torch_seed)`), puts it in eval() mode and runs the call sequence under
-`torch.no_grad()`.  Inputs are a pure function of (torch_seed, H, W), so two calls of the
-same size see the same tensor.
+`torch.no_grad()`.  Inputs are a pure function of (torch_seed, H, W, ranges), so two calls of
+the same size see the same tensor.  Every frame of the batch has its own VALUE RANGE class
+(`RANGES`): "unit" (values in [0, 1), what the pipeline makes of uint8 images), "raw255" (float
+image that was never divided by 255 - `apply_normalization` passes float images through
+unscaled), "overshoot" (unit range with a few pixels slightly above 1 / below 0, e.g. after
+brightness / noise augmentation or interpolation), "const" (one grey level) and "zero" (padding
+frame).  The classes are drawn per frame, so batches MIX ranges.
 
 Oracles
   (1) shape contract: the returned dict has exactly one entry per head of the model type;
@@ -18,7 +24,7 @@ Oracles
   (2) eval-mode determinism / history independence: a call with a size that was used
       before returns bit-identical output (immediately repeated, or after calls with
       other sizes: A,B,A); every frame of a batch run alone gives the batched result
-      (1e-5 scaled).
+      (1e-5 scaled), whatever the value ranges of its batch-mates are.
 
 Triage (DESIGN.md C14).  The generated grid is split in
   * core grid   - every option at a value the repo's tests, presets or docs examples use;
@@ -39,8 +45,9 @@ from vlib.runner import Part, Result
 PROPERTY = "C14"
 LEVEL = "exploration"
 RULE = (
-    "cases = (backbone family, backbone config, head type, head output strides, batch, call sequence of "
-    "input sizes, torch seed) over the finite DESIGN grid: sampled with Hypothesis (core grid and "
+    "cases = (backbone family, backbone config, head type, head output strides, batch, per-frame input value "
+    "range (unit | raw 0..255 floats | slight over/undershoot | constant | all-zero; drawn per frame so that "
+    "batches mix ranges), call sequence of input sizes, torch seed) over the finite DESIGN grid: sampled with Hypothesis (core grid and "
     "extended grid parts) and, in the thorough tier, every grid configuration enumerated once with a "
     "rotating call sequence; non-trivial = the model was built and the configuration has a stem "
     "(unet stem_stride / convnext,swint stem_patch_stride=4) or unequal head strides or "
@@ -59,7 +66,12 @@ ASSUMPTIONS = [
     "bookkeeping); window_size [7,7], patch_size [4,4], stem_patch_kernel 4 fixed",
     "eval() mode only; train-mode stochastic depth is outside the statement",
     "same-size repeat comparisons are exact (single thread, same kernel, same data); batch-vs-single "
-    "comparisons use 1e-5*(1+max|ref|) because the convolution algorithm may depend on the batch size",
+    "comparisons use 1e-5*(1+max|ref|) (1e-4*(1+max|ref|) for a raw 0..255 frame: measured maxima 2.3e-7 / 8.7e-7) "
+    "because the convolution algorithm may depend on the batch size",
+    "input frames are float32 of one of five value ranges (unit [0,1) | integer-valued 0..255 floats | unit with "
+    "1-4 pixels up to 0.1 above 1 and up to 0.05 below 0 | one grey level in [0,1) | all zero), all legitimate "
+    "model inputs (apply_normalization passes float images through unscaled); integer-dtype tensors, NaN/inf and "
+    "values far outside 0..255 are not generated",
     "failures of configurations matching a listed extended-grid predicate are all attributed to that "
     "predicate (bucket ext:<backbone>:<predicate>) and therefore hidden once the predicate is an open "
     "known finding",
@@ -129,7 +141,25 @@ def head_configs(model_type, strides, n_parts, n_edges):
     }
 
 
-def make_case(backbone, bcfg, model_type, strides, n_parts, n_edges, batch, calls, seed):
+# Value-range class of one input frame (see module docstring).  "unit", "const", "zero" stay
+# within [0, 1]; "raw255" and "overshoot" hold values above 1.
+RANGES = ["unit", "raw255", "overshoot", "const", "zero"]
+EXCEEDS_UNIT = ("raw255", "overshoot")
+# One choice = the ranges of all frames of the batch (ordered), so that every combination is a
+# single draw; the all-unit batch (the only class before the axis existed) keeps extra weight.
+RANGE_MIXES = {
+    1: [("unit",)] * 4 + [(r,) for r in RANGES],
+    2: [("unit", "unit")] * 7 + [(a, b) for a in RANGES for b in RANGES],
+}
+
+
+def case_ranges(case):
+    return list(case.get("ranges") or ["unit"] * case["batch"])
+
+
+def make_case(backbone, bcfg, model_type, strides, n_parts, n_edges, batch, calls, seed, ranges=None):
+    ranges = list(ranges) if ranges is not None else ["unit"] * batch
+    assert len(ranges) == batch and all(r in RANGES for r in ranges), ranges
     return {
         "backbone_type": backbone,
         "backbone_config": bcfg,
@@ -138,6 +168,7 @@ def make_case(backbone, bcfg, model_type, strides, n_parts, n_edges, batch, call
         "batch": batch,
         "calls": [list(c) for c in calls],
         "torch_seed": seed,
+        "ranges": ranges,
     }
 
 
@@ -251,7 +282,32 @@ def _input(case, h, w):
 
     g = torch.Generator()
     g.manual_seed(int(case["torch_seed"]) * 100003 + h * 1009 + w)
-    return torch.rand(case["batch"], case["backbone_config"]["in_channels"], h, w, generator=g)
+    x = torch.rand(case["batch"], case["backbone_config"]["in_channels"], h, w, generator=g)
+    # per-frame value range; the extra draws come from a second generator so that the "unit"
+    # frames are the tensors older replay files were made with
+    for f, rng in enumerate(case_ranges(case)):
+        if rng == "unit":
+            continue
+        g2 = torch.Generator()
+        g2.manual_seed(int(case["torch_seed"]) * 100003 + h * 1009 + w + 7919 * (f + 1))
+        if rng == "raw255":
+            # a uint8 image cast to float32 without the division by 255
+            x[f] = torch.floor(x[f] * 256.0).clamp_(0.0, 255.0)
+        elif rng == "overshoot":
+            # 1..4 pixels up to 0.1 above 1 and as many up to 0.05 below 0
+            flat = x[f].reshape(-1)
+            k = int(torch.randint(1, 5, (1,), generator=g2))
+            idx = torch.randperm(flat.numel(), generator=g2)[: 2 * k]
+            amt = torch.rand(2 * k, generator=g2)
+            flat[idx[:k]] = 1.0 + 0.005 + 0.095 * amt[:k]
+            flat[idx[k:]] = -0.05 * amt[k:]
+        elif rng == "const":
+            x[f] = float(torch.rand(1, generator=g2))
+        elif rng == "zero":
+            x[f] = 0.0
+        else:
+            raise ValueError(f"unknown range class {rng!r}")
+    return x
 
 
 def _pipeline_shapes(case, h, w):
@@ -303,6 +359,8 @@ def evaluate(case):
     chans = head_channels(case)
     keys = HEAD_KEYS[mt]
     sizes = [tuple(c) for c in case["calls"]]
+    ranges = case_ranges(case)
+    assert len(ranges) == case["batch"], "harness: one range class per frame"
 
     why = invalid_reason(case)
     if why:
@@ -329,6 +387,17 @@ def evaluate(case):
     )
     if stem and len(set(hs)) > 1:
         res.cls("stem+unequal-head-strides")
+    # value-range axis: the (unordered) set of frame ranges, and for batches the mix class
+    res.cls("ranges=" + "+".join(sorted(set(ranges))) + f":batch={case['batch']}")
+    for r in sorted(set(ranges)):
+        res.cls(f"frame-range={r}")
+    if case["batch"] > 1:
+        above = [r in EXCEEDS_UNIT for r in ranges]
+        res.cls(
+            "range-mix="
+            + ("uniform" if len(set(ranges)) == 1 else "mixed")
+            + (":within-unit+exceeds-unit" if any(above) and not all(above) else "")
+        )
 
     def fail(bucket, msg):
         res.fail(f"ext:{bb}:{pred}" if pred else f"{bucket}:{bb}", f"{msg} | {bucket} | cfg={b} heads={mt}{hs} calls={sizes}")
@@ -415,6 +484,16 @@ def evaluate(case):
             first[(h, w)] = (i, out)
 
     # ---- (2b) a frame inside a batch equals the frame alone
+    #      The batch-mates of a frame may be of any value range (ranges are drawn per frame); the
+    #      failing clause is named after the mix so that a dependence on a batch-wide statistic of
+    #      the input (max, mean, dtype/range sniffing) gets its own bucket.
+    if len(set(ranges)) > 1:
+        above = [r in EXCEEDS_UNIT for r in ranges]
+        bi_bucket = "eval:batch-independence:mixed-value-ranges" + (":within-unit+exceeds-unit" if any(above) and not all(above) else "")
+    elif ranges[0] != "unit":
+        bi_bucket = "eval:batch-independence:non-unit-value-range"
+    else:
+        bi_bucket = "eval:batch-independence"
     if case["batch"] > 1 and sizes and sizes[0] in first:
         h, w = sizes[0]
         x = _input(case, h, w)
@@ -427,12 +506,22 @@ def evaluate(case):
             for key in keys:
                 a, r = out[key][0], ref[key][f]
                 if a.shape != r.shape:
-                    fail("eval:batch-independence", f"frame {f} alone has shape {tuple(a.shape)}, in batch {tuple(r.shape)}")
+                    fail(bi_bucket, f"frame {f} alone has shape {tuple(a.shape)}, in batch {tuple(r.shape)}")
                     continue
                 d = float((a - r).abs().max())
-                tol = 1e-5 * (1.0 + float(r.abs().max()))
+                # float32 convolutions may pick another algorithm for another batch size, which changes
+                # the last bits.  Measured on the unchanged tree (core+ext strategies, 3 seeds, ~6000
+                # frame/head comparisons): max d/(1+max|ref|) = 2.3e-7 for frames within about [0, 1]
+                # and 8.7e-7 for raw 0..255 frames (rounding error follows the activations, which are
+                # ~255x larger there, while the output is not) -> 1e-5 resp. 1e-4, > 40x margin each.
+                eps = 1e-4 if ranges[f] == "raw255" else 1e-5
+                tol = eps * (1.0 + float(r.abs().max()))
                 if not d <= tol:
-                    fail("eval:batch-independence", f"{key}: frame {f} alone vs in batch of {case['batch']}: max|diff|={d:g} > {tol:g}")
+                    fail(
+                        bi_bucket,
+                        f"{key}: frame {f} (range {ranges[f]}) alone vs in batch of {case['batch']} (ranges {ranges}): "
+                        f"max|diff|={d:g} > {tol:g}",
+                    )
     res.n_evals = max(res.n_evals, 1)
     return res
 
@@ -475,7 +564,8 @@ def _draw_common(draw, st, mults_pool=None):
     n_parts = draw(st.integers(2, 4))
     n_edges = draw(st.integers(1, n_parts - 1))
     seed = draw(st.integers(0, 2**20))
-    return mults, batch, n_parts, n_edges, seed
+    ranges = draw(st.sampled_from(RANGE_MIXES[batch]))
+    return mults, (batch, ranges), n_parts, n_edges, seed
 
 
 def _draw_heads(draw, st, allowed, stride_class=None):
@@ -512,9 +602,9 @@ def core_strategy(weights):
             upi = draw(st.booleans())
             inch = draw(st.sampled_from([1, 1, 3]))
             mt, hs = _draw_heads(draw, st, [s for s in (1, 2, 4) if s < ms])
-            mults, batch, n_parts, n_edges, seed = _draw_common(draw, st)
+            mults, (batch, ranges), n_parts, n_edges, seed = _draw_common(draw, st)
             bcfg = unet_config(ms, stem, filters, fr, 2, upi, True, inch, min(hs))
-            return make_case(bb, bcfg, mt, hs, n_parts, n_edges, batch, _sizes(ms, mults), seed)
+            return make_case(bb, bcfg, mt, hs, n_parts, n_edges, batch, _sizes(ms, mults), seed, ranges)
         stemp = draw(st.sampled_from([2, 4]))
         upi = draw(st.booleans())
         inch = draw(st.sampled_from([1, 1, 3]))
@@ -524,9 +614,9 @@ def core_strategy(weights):
             hs[draw(st.integers(0, len(hs) - 1))] = draw(st.sampled_from([s for s in (1, 2, 4) if s <= stemp]))
         # tests use stem_patch_stride=4 with max_stride=16 and 192x192 inputs: multiples of 32
         pool = [(1, 1), (1, 2), (2, 1), (2, 2), (1, 3), (3, 1)] if stemp == 2 else [(2, 2), (2, 4), (4, 2)]
-        mults, batch, n_parts, n_edges, seed = _draw_common(draw, st, pool)
+        mults, (batch, ranges), n_parts, n_edges, seed = _draw_common(draw, st, pool)
         bcfg = tv_config(bb, stemp, 16, 2, 2, upi, inch, min(hs))
-        return make_case(bb, bcfg, mt, hs, n_parts, n_edges, batch, _sizes(16, mults), seed)
+        return make_case(bb, bcfg, mt, hs, n_parts, n_edges, batch, _sizes(16, mults), seed, ranges)
 
     return case()
 
@@ -578,9 +668,9 @@ def ext_strategy(weights):
                 hs[k] = ms
             elif dev == "head_stride>=8":
                 hs[k] = draw(st.sampled_from([s for s in allowed if s >= 8]))
-            mults, batch, n_parts, n_edges, seed = _draw_common(draw, st)
+            mults, (batch, ranges), n_parts, n_edges, seed = _draw_common(draw, st)
             bcfg = unet_config(ms, stem, filters, fr, cpb, upi, mb, inch, min(hs))
-            return make_case(bb, bcfg, mt, hs, n_parts, n_edges, batch, _sizes(ms, mults), seed)
+            return make_case(bb, bcfg, mt, hs, n_parts, n_edges, batch, _sizes(ms, mults), seed, ranges)
         dev = draw(st.sampled_from(TV_DEVS))
         stemp = 4 if "stem4" in dev else draw(st.sampled_from([2, 4]))
         ms = 32 if dev == "max_stride=32-with-stem4" else 16
@@ -609,9 +699,9 @@ def ext_strategy(weights):
             pool = [(1, 1), (1, 2), (2, 1)]
         else:
             pool = [(1, 1), (1, 2), (2, 1), (2, 2), (1, 3), (3, 1)]
-        mults, batch, n_parts, n_edges, seed = _draw_common(draw, st, pool)
+        mults, (batch, ranges), n_parts, n_edges, seed = _draw_common(draw, st, pool)
         bcfg = tv_config(bb, stemp, ms, fr, cpb, upi, inch, min(hs))
-        return make_case(bb, bcfg, mt, hs, n_parts, n_edges, batch, _sizes(unit, mults), seed)
+        return make_case(bb, bcfg, mt, hs, n_parts, n_edges, batch, _sizes(unit, mults), seed, ranges)
 
     return case()
 
@@ -642,9 +732,15 @@ def _head_combos(allowed):
     return out
 
 
+def _grid_ranges(n):
+    """Frame value ranges of grid configuration n (batch = 1 + n % 2): rotates through RANGE_MIXES."""
+    mixes = RANGE_MIXES[1 + n % 2]
+    return mixes[(n // 2) % len(mixes)]
+
+
 def grid_cases(tier):
-    """Every configuration of the DESIGN grid once; call sequence, batch, skeleton size and
-    seed rotate with the index.  Order is shuffled with a fixed seed so that the modulo-16
+    """Every configuration of the DESIGN grid once; call sequence, batch, frame value ranges,
+    skeleton size and seed rotate with the index.  Order is shuffled with a fixed seed so that the modulo-16
     sharding spreads cheap (failing-fast / rejected) and expensive configurations evenly."""
     cases = []
     n = 0
@@ -657,7 +753,7 @@ def grid_cases(tier):
             n_parts = 2 + n % 3
             # max_stride 32: multiples <= 2 (64 px) to bound the cost of the widest models
             seqs = MULT_SEQS_SMALL if ms == 32 else MULT_SEQS
-            case = make_case("unet", bcfg, mt, hs, n_parts, 1 + n % (n_parts - 1), 1 + n % 2, _sizes(ms, seqs[n % len(seqs)]), n)
+            case = make_case("unet", bcfg, mt, hs, n_parts, 1 + n % (n_parts - 1), 1 + n % 2, _sizes(ms, seqs[n % len(seqs)]), n, _grid_ranges(n))
             # configurations of a listed predicate fail whatever the width: keep the two narrow widths only
             if filters > 16 and listed_predicate(case):
                 continue
@@ -674,7 +770,7 @@ def grid_cases(tier):
                     seq = MULT_SEQS[n % 2 * 6]  # (1,1),(2,1),(1,1) / (2,1),(2,2)
                 else:
                     seq = MULT_SEQS[n % len(MULT_SEQS)]
-                cases.append(make_case(bb, bcfg, mt, hs, n_parts, 1 + n % (n_parts - 1), 1 + n % 2, _sizes(ms, seq), n))
+                cases.append(make_case(bb, bcfg, mt, hs, n_parts, 1 + n % (n_parts - 1), 1 + n % 2, _sizes(ms, seq), n, _grid_ranges(n)))
     random.Random(14).shuffle(cases)
     return cases
 
